@@ -6,7 +6,7 @@ LEVEL = 'model_checking'
 EXPLANATION = ('Symbolic execution of Driver.get_constraint_values(viol=True) / Driver._compute_con_viol on a real '
                'Problem: constraint values, bounds (scalar and per-element), equality targets and scaler/adder are '
                'symbolic reals; the reference is the per-element signed distance times the scaler.')
-BOUNDS = dict(constraints='<= 2', elements_per_constraint='<= 3 (quick 2)', bound_forms='scalar | per-element array | one-sided | equality',
+BOUNDS = dict(constraints='<= 2', elements_per_constraint='<= 3 (quick 2; two-sided bounds with symbolic scaling <= 2; _compute_con_viol: quick 1, thorough 2)', bound_forms='scalar | per-element array | one-sided | equality',
               scaling='scaler/adder symbolic (array), ref/ref0 symbolic (array), none')
 STUBS = ['module-global float in openmdao.utils.general_utils / openmdao.core.system -> pass-through for proxies']
 ASSUMPTIONS = ['scaler != 0, ref != ref0', 'lower <= upper', 'numbers are mathematical reals']
@@ -15,18 +15,29 @@ OUTSIDE = ['find_feasible least-squares iteration itself (SciPy)', 'distributed 
 
 def harnesses(tier, seed):
     jobs = []
-    ns = (1, 2) if tier == 'quick' else (1, 2, 3)
+    q = tier == 'quick'
+    ns = (1, 2) if q else (1, 2, 3)
+    # quick tier: every bound form x scaling x driver_scaling with one element; with two elements one driver_scaling value per
+    # (bound form, scaling) pair, alternating (the two-element scaler_adder/array runs are ~5400 paths each)
+    alt = 0
     for n in ns:
         for bform in ('scalar', 'array', 'lower_only', 'upper_only', 'equals_scalar', 'equals_array'):
             if n == 1 and bform in ('array', 'equals_array'):
                 continue
             for scaling in ('none', 'scaler_adder', 'ref_ref0'):
-                for ds in (True, False):
+                if n == 3 and bform in ('scalar', 'array') and scaling != 'none':
+                    continue        # ~73 paths per element (sign of the scaler x position against both bounds x infinite-bound tests): 390k paths
+                dss = (True, False)
+                if q and n == 2 and scaling != 'none':
+                    alt += 1
+                    dss = (bool(alt % 2),)
+                for ds in dss:
                     if scaling == 'none' and not ds:
                         continue
-                    jobs.append(dict(fn='h_viol', params=dict(n=n, bform=bform, scaling=scaling, driver_scaling=ds), max_paths=50000))
+                    jobs.append(dict(fn='h_viol', params=dict(n=n, bform=bform, scaling=scaling, driver_scaling=ds), max_paths=200000, wall_s=600 if q else 3000))
     for ds in (True, False):
-        jobs.append(dict(fn='h_con_viol_vector', params=dict(driver_scaling=ds)))
+        jobs.append(dict(fn='h_con_viol_vector', params=dict(driver_scaling=ds, n=1 if q else 2), max_paths=100000,
+                         wall_s=600 if q else 3000))
     return jobs
 
 
@@ -137,11 +148,11 @@ def h_viol(ctx, n, bform, scaling, driver_scaling):
     ctx.observe('viol', got)
 
 
-def h_con_viol_vector(ctx, driver_scaling):
-    """_compute_con_viol: linear constraints first, then nonlinear, each as in h_viol"""
+def h_con_viol_vector(ctx, driver_scaling, n=2, free_signs=2):
+    """_compute_con_viol: linear constraints first, then nonlinear, each as in h_viol.  free_signs=1: the scalers of the
+    (equality) linear constraint are assumed positive, those of the two-sided nonlinear one are free."""
     _install(ctx)
     xp = ctx.np
-    n = 2
     x = ctx.reals('x', n, -100, 100)
     lo1, up1 = ctx.real('lo1'), ctx.real('up1')
     ctx.assume(lo1 <= up1)
@@ -150,7 +161,7 @@ def h_con_viol_vector(ctx, driver_scaling):
     s2 = ctx.reals('s2', n)
     for i in range(n):
         ctx.assume(s1[i] != 0)
-        ctx.assume(s2[i] != 0)
+        ctx.assume(s2[i] != 0 if free_signs > 1 else s2[i] > 0)
     p = om.Problem()
     p.model.add_subsystem('c', _Pass(n, xp, names=('y', 'z', 'w')), promotes=['*'])
     p.model.add_design_var('x')
